@@ -585,6 +585,36 @@ func c16GenericFamilies(w *vx.W) {
 		}
 		return true
 	})
+	// all 16 local message types: an unknown message left defined on local l when the stream ends (two records), and a
+	// known message with an unlisted field on local l2 (same local = redefinition), for every pair (l, l2)
+	for l := 0; l < 16; l++ {
+		for l2 := 0; l2 < 16; l2++ {
+			if !w.Mine(int64(l*16 + l2)) {
+				continue
+			}
+			parts := fitmodel.FileIdRecords(byte((l+5)%16), 4)
+			if (l+5)%16 == l || (l+5)%16 == l2 {
+				parts = fitmodel.FileIdRecords(byte((l+9)%16), 4)
+			}
+			du := fitmodel.Def{Local: byte(l), Global: 0xFF00 + uint16(l), Fields: []fitmodel.FieldDef{{Num: 1, Size: 2, Base: fitmodel.Uint16}}}
+			dk := fitmodel.Def{Local: byte(l2), Global: 20, Fields: []fitmodel.FieldDef{{Num: 3, Size: 1, Base: fitmodel.Uint8}, {Num: 210, Size: 1, Base: fitmodel.Uint8}}}
+			for order := 0; order < 2; order++ {
+				recs := append([][]byte{}, parts...)
+				if order == 0 {
+					recs = append(recs, dk.Bytes(), fitmodel.Data(byte(l2), []byte{61, 1}), du.Bytes(), fitmodel.Data(byte(l), []byte{1, 0}), fitmodel.Data(byte(l), []byte{2, 0}))
+				} else {
+					recs = append(recs, du.Bytes(), fitmodel.Data(byte(l), []byte{1, 0}), fitmodel.Data(byte(l), []byte{2, 0}), dk.Bytes(), fitmodel.Data(byte(l2), []byte{61, 1}))
+				}
+				stream := fitmodel.File(fitmodel.DefaultHeader, recs...)
+				w.Eval(int64(len(c16Configs)))
+				w.Trace(int64(len(c16Configs)))
+				w.Fam("all-16-local-types", 1)
+				if msg, class := c16Generic(stream); msg != "" {
+					report(fmt.Sprintf("unknown message on local %d, known message with an unlisted field on local %d (order %d)", l, l2, order), stream, msg, class)
+				}
+			}
+		}
+	}
 	var items []namedStream
 	for _, s := range []namedStream{sMin12, sAct3, sAct3BE, sSet, sBig, sDev, sMonState, sZero, s4096} {
 		items = append(items, s)
